@@ -122,7 +122,17 @@ Pack(t, v) ==
     [] t.k = "map" -> N([q \in DOMAIN v.m |-> Pack(t.e, v.m[q])], <<>>)
     [] t.k = "struct" -> PackFields(t, v, 1, Empty)
 
-DefaultName(n) == CASE n = "F0" -> "f0" [] n = "F1" -> "f1" [] n = "F2" -> "f2" [] n = "F3" -> "f3" [] n = "X" -> "x" [] n = "Y" -> "y" [] OTHER -> n
+DefaultName(n) == CASE n = "F0" -> "f0" [] n = "F1" -> "f1" [] n = "F2" -> "f2" [] n = "F3" -> "f3" [] n = "X" -> "x" [] n = "Y" -> "y"
+                     [] n = "From" -> "from" [] n = "To" -> "to" [] n = "At" -> "at" [] n = "Kind" -> "kind" [] OTHER -> n
+
+\* The StructTag(key) option: the tags of a struct type count only when they are written under the key the option
+\* names ("config" without the option); otherwise every exported field is an ordinary setting under its
+\* lower-cased Go name - no renames, no inline, no ignore - at every depth.
+RECURSIVE Strip(_)
+Strip(t) == CASE t.k = "struct" -> TStruct([i \in 1..Len(t.f) |-> Fld(t.f[i].n, <<>>, "", Strip(t.f[i].t))])
+              [] t.k \in {"ptr", "slice", "array", "map"} -> [t EXCEPT !.e = Strip(t.e)]
+              [] OTHER -> t
+EffType(t, tagkey, structtag) == IF tagkey = (IF structtag = "" THEN "config" ELSE structtag) THEN t ELSE Strip(t)
 
 PackFields(t, v, i, acc) ==
   IF IsErr(acc) \/ i > Len(t.f) THEN acc
